@@ -339,10 +339,11 @@ class Line(PyStub):
         return self
 
     def split(self):
-        return list(self.tokens)
+        # the whole line: a trailing comment that has not been cut off comes along as words ('#', then the comment's words)
+        return list(self.tokens) + ([] if self.comment is None else ['#'] + list(self.comment))
 
     def strip(self):
-        return ' '.join(str(t) for t in self.tokens)
+        return ' '.join(str(t) for t in self.split())
 
     def partition(self, sep):
         if sep != '#':
@@ -373,6 +374,8 @@ class Line(PyStub):
                 return Line(self.tokens[:k.stop])
             if k.start == n + 1 and k.stop is None and self.comment is not None:
                 return Line(self.comment)
+            if k.start == n and k.stop is None and self.comment is not None:
+                return Line([], comment=self.comment)
             if k.start in (None, 0) and k.stop is None:
                 return self
             raise Opaque('line slice %r' % (k,))
